@@ -1031,7 +1031,7 @@ class AstEval:
         else:
             for arg1 in arg.orelse:
                 val = await self.aeval(arg1)
-                if isinstance(val, EvalReturn):
+                if isinstance(val, EvalStopFlow):
                     return val
         return None
 
@@ -1053,7 +1053,7 @@ class AstEval:
         else:
             for arg1 in arg.orelse:
                 val = await self.aeval(arg1)
-                if isinstance(val, EvalReturn):
+                if isinstance(val, EvalStopFlow):
                     return val
         return None
 
